@@ -14,3 +14,15 @@ package types
 //@ func (*SerializableDate).UnmarshalJSON@twins
 //@   props C17 C02
 //@   decoders-come-in-pairs
+
+// ---- a date or time marshals as the JSON string it was decoded from (C02) ----------
+// Whatever the value — the zero time.Time is the valid date 0001-01-01 — the output
+// is a quoted text, never null or a bare word.
+//@ func (SerializableDate).MarshalJSON
+//@   props C02 C17
+//@   option noframe
+//@   ensures [C02] a-date-marshals-as-a-json-string: result1 == nil && has_prefix(result0, "\"")
+//@ func (SerializableTime).MarshalJSON
+//@   props C02 C17
+//@   option noframe
+//@   ensures [C02] a-time-marshals-as-a-json-string: result1 == nil && has_prefix(result0, "\"")
